@@ -13,6 +13,9 @@
 //	run     = ( backend engine mode limit errclass ( objid ... ) )     objid = interned id of the returned object
 //	stream  = ( backend engine errclass ( ( objid status ) ... ) )    status 1 = NoFurtherEval, 0 = RequiresFurtherEval
 //	backend 0 memory 1 sqlite; engine 0 classic 1 weighted 2 pipeline; mode 0 Execute 1 ExecuteStreamed
+//	mode 2 / 3: a TRANSIENT Execute / ExecuteStreamed answer: it held fewer objects than another
+//	answer to the same request allowed for, and an immediate repetition of the call did not
+//	show the shortfall again (schedule-dependent behaviour; the repetition is recorded as mode 0 / 1)
 //	errclass 0 none 1 condition 2 too-complex/depth 3 validation 4 other 5 deadline/slow 6 hang (no response)
 package main
 
@@ -503,17 +506,44 @@ func runScenario(ctx context.Context, w *rec.Writer, r *rec.Rand, sq storage.Ope
 						w.Stat("result_4plus", 1)
 					}
 				}
-				ecs, objss := rn.list(rq, engine, 1, 0)
-				emit(b, engine, 1, 0, ecs, objss)
-				ecd, objsd := rn.list(rq, engine, 0, serverconfig.DefaultListObjectsMaxResults)
-				emit(b, engine, 0, serverconfig.DefaultListObjectsMaxResults, ecd, objsd)
+				// nref: the largest successful answer so far; a later successful answer that is
+				// shorter than min(limit, nref) is repeated (up to 2 times) to tell
+				// schedule-dependent shortfalls from systematic ones
+				nref := 0
+				if ec0 == errNone {
+					nref = len(objs0)
+				}
+				call := func(mode int, limit uint32) {
+					expected := nref
+					if limit > 0 && int(limit) < expected {
+						expected = int(limit)
+					}
+					ec, objs := rn.list(rq, engine, mode, limit)
+					if ec == errNone && len(objs) < expected {
+						for try := 0; try < 2; try++ {
+							ec2, objs2 := rn.list(rq, engine, mode, limit)
+							w.Stat("calls_repeated_after_shortfall", 1)
+							if ec2 != errNone || len(objs2) >= expected {
+								emit(b, engine, mode+2, limit, ec, objs) // transient
+								w.Stat("calls_transient_shortfall", 1)
+								ec, objs = ec2, objs2
+								break
+							}
+						}
+					}
+					emit(b, engine, mode, limit, ec, objs)
+					if ec == errNone && len(objs) > nref {
+						nref = len(objs)
+					}
+				}
+				call(1, 0)
+				call(0, serverconfig.DefaultListObjectsMaxResults)
 				lims := limitsFor(len(objs0))
 				if !full && len(lims) > 3 && b == 1 {
 					lims = lims[len(lims)-3:] // sqlite is slower: n-1, n, n+1 only
 				}
 				for _, l := range lims {
-					ec, objs := rn.list(rq, engine, 0, l)
-					emit(b, engine, 0, l, ec, objs)
+					call(0, l)
 					w.Stat("calls_limited", 1)
 				}
 			}
